@@ -120,24 +120,29 @@ class Ctx:
         return False
 
     def judge(self, config, r, out_files, whole=True, written_only=None):
-        """A run that reports success must have produced exactly R."""
+        """A run that reports success must leave every file of the reference output in place with the
+        reference bytes (whether it rewrote it or found it already identical), and must not write
+        anything the reference run does not write.  With written_only=None the directory was fresh or
+        cleaned first, so the whole tree must equal the reference tree."""
         self.res.evaluations += 1
         self.tr.ev(config, r.get("status"), r.get("writes"), r.get("fired"))
         if r.get("status") != "ok":
             return self.fail(config, "generation-failed", f"[{config}] unfaulted generator run failed: {r.get('status')}: {r.get('error')}")
         R = self.R
-        files = out_files
-        if written_only is not None:
-            files = {k: v for k, v in out_files.items() if k in set(written_only)}
-            missing = sorted(set(R) - set(written_only))
-            if missing:
-                return self.fail(config, "files-not-written", f"[{config}] run did not write {missing[:5]} (of {len(R)} files)")
-        if set(files) != set(R):
-            extra, missing = sorted(set(files) - set(R)), sorted(set(R) - set(files))
-            return self.fail(config, "file-set-differs", f"[{config}] output file set differs from the reference run: extra {extra[:5]} missing {missing[:5]}")
-        diff = sorted(k for k in R if files[k] != R[k])
+        missing = sorted(k for k in R if k not in out_files)
+        if missing:
+            return self.fail(config, "file-set-differs", f"[{config}] after the run {len(missing)} file(s) of the reference output are missing, e.g. {missing[:4]}")
+        diff = sorted(k for k in R if out_files[k] != R[k])
         if diff:
             return self.fail(config, "bytes-differ", f"[{config}] {len(diff)} file(s) differ from the reference run, e.g. {diff[:3]}")
+        if written_only is None:
+            extra = sorted(set(out_files) - set(R))
+            if extra:
+                return self.fail(config, "file-set-differs", f"[{config}] output holds files the reference run does not produce: {extra[:5]}")
+        else:
+            stray = sorted(set(written_only) - set(R))
+            if stray:
+                return self.fail(config, "file-set-differs", f"[{config}] the run wrote files the reference run does not write: {stray[:5]}")
         return True
 
 
